@@ -593,6 +593,10 @@ impl Monitors {
             if all_terminal && !j.open && !j.tasks.is_empty() && completed.get(&j.id).copied().unwrap_or(0) == 0 {
                 fails.push(("c02.rest", "closed-job-not-completed", format!("job {} is closed, all tasks terminal, but never reported completed", j.id)));
             }
+            // a closed job WITHOUT tasks (a submit of zero entries) is closed with all its tasks terminal from the start
+            if !j.open && j.tasks.is_empty() && completed.get(&j.id).copied().unwrap_or(0) == 0 {
+                fails.push(("c13.completed_once", "empty-closed-job-never-completed", format!("job {} is closed and has no task, but was never reported completed", j.id)));
+            }
         }
         for (c, s, d) in fails {
             self.fail(c, s, d);
